@@ -2,3 +2,4 @@ pub mod c06;
 pub mod c09;
 pub mod c20;
 pub mod epc;
+pub mod eps;
